@@ -107,7 +107,10 @@ func zeroDeadlineProbe(c *hc.Case, tags map[string]bool) {
 		cfg.Execution.Timeout = tmo
 		cfg.Metrics.Run = []circuit.RunMetrics{kindRec{&kinds}}
 		x := circuit.NewCircuitFromConfig("zero-deadline", cfg)
-		_ = x.Run(context.Background(), func(context.Context) error {
+		caller := context.WithValue(context.WithValue(context.Background(), "circuit", "the caller's"), "zero-deadline", "the caller's too")
+		var got context.Context
+		_ = x.Run(caller, func(rctx context.Context) error {
+			got = rctx
 			now = now.Add(10 * tmo)
 			if ret == "error" {
 				return errors.New("late")
@@ -115,6 +118,12 @@ func zeroDeadlineProbe(c *hc.Case, tags map[string]bool) {
 			return nil
 		})
 		tags["zero-deadline"] = true
+		if _, has := got.Deadline(); got == caller || !has {
+			c.Viol = append(c.Viol, hc.Violation{Clause: "C07: with Timeout > 0 the run function receives a derived context whose deadline is call start plus Timeout", Detail: "Timeout 1s, call start at zero time - 1s (deadline = the zero time): the run function was handed the caller's own context / a context without a deadline", AtOp: len(c.Ops)})
+		}
+		if got.Value("circuit") != "the caller's" || got.Value("zero-deadline") != "the caller's too" {
+			c.Viol = append(c.Viol, hc.Violation{Clause: "C07: the derived context carries the caller's values", Detail: fmt.Sprintf("values the caller stored under the plain string keys \"circuit\" and the circuit's name read %v and %v in the run function's context", got.Value("circuit"), got.Value("zero-deadline")), AtOp: len(c.Ops)})
+		}
 		if len(kinds) != 1 || kinds[0] != "KTimeout" {
 			c.Viol = append(c.Viol, hc.Violation{Clause: "C05: the kind follows the precedence order bad request, timeout, caller interrupt, failure, success",
 				Detail: fmt.Sprintf("the substitute clock read zero time - 1s when the call started (so its deadline is the zero time), Timeout 1s, the function returned %s 10s later: run events %v, want [KTimeout]", ret, kinds), AtOp: len(c.Ops)})
